@@ -256,6 +256,9 @@ inductive Op where
   | cconv (i : Nat)                        -- X(sp)   on a const lvalue: `operator const X() const`
   | ares (i : Nat)                         -- sp.await_resume()
   | finish                                 -- the running coroutine ends: the queue is flushed
+  | create (i : Nat) (hs : List Ptr) (v : Option Nat)
+      -- sp_i = coro_queue::create_suspend_point(fn), `fn` makes the coroutines `hs` ready (coro_queue::resume, in
+      -- that order) and returns nothing (`v = none`: suspend_point<void>) or the value `v` (suspend_point<X>)
   deriving DecidableEq, Repr
 
 inductive Res where
@@ -286,6 +289,10 @@ never writes another object's storage — `AddSpec.mem_other` in the proofs.) -/
 def stepMerge (s : State) (i j : Nat) (oj : Obj) : State :=
   -- `delete[] other._ext._handles` if flagged, `other._count_flag = 0`: the same statements as `clear_internal()`
   clearInternal (addAll s i (handlesOf s oj)) j oj
+
+/-- `ss << h` for every handle of the list, each one handed in by the environment (ghost `given`) -/
+def createAll (s : State) (i : Nat) (hs : List Ptr) : State :=
+  hs.foldl (fun s h => add { s with given := s.given ++ [h] } i h) s
 
 /-- the `value` member of object `i` is assigned / moved from (no other member changes) -/
 def setVal (s : State) (i : Nat) (v : Option Nat) : State :=
@@ -394,6 +401,14 @@ def step (s : State) (op : Op) : State × Res :=
       | some o => if o.typed then (s, readVal o) else (s, Res.bad)
       | none => (s, Res.bad)
   | Op.finish => if s.active then (flushAll s, Res.unit) else (s, Res.unit)
+  | Op.create i hs v =>
+      -- `create_suspend_point`: under a queue (installed temporarily in normal mode) `fn` runs, the handles it made ready
+      -- went to the back of the ready queue; they are taken off again *from the back* (`ss << queue.back(); pop_back()`),
+      -- so the queue is as before and the new suspend point holds them in reverse order; a non-void result is attached
+      -- by `suspend_point<X>(std::move(ss), std::move(v))` (same storage, the temporary `ss` is left empty and destroyed)
+      if vacant s i then
+        (createAll (setObj s i (some { typed := v.isSome, value := v })) i hs.reverse, Res.unit)
+      else (s, Res.bad)
 
 def run (s : State) (ops : List Op) : State := ops.foldl (fun s op => (step s op).1) s
 
